@@ -18,6 +18,20 @@ from pywbem import (CIMInstanceName, CIMClassName, CIMDateTime, Uint8, Uint16,
 from pywbem._cim_http import get_cimobject_header
 
 DT_TEXT = "20140922104920.524789+120"
+# the classes of the datetime lexemes of the spec: DT / DI = timestamp /
+# interval with digits in every field, DTs / DIs = reduced precision (DSP0004
+# 5.2.4: asterisks in the least significant fields / microsecond digits).
+# One member per vector is chosen by the CharMap.
+DT_POOLS = {
+    "DT": [DT_TEXT],
+    "DI": ["00000183132542.234567:000", "12345678133015.123456:000"],
+    "DTs": ["20140924193040.654***+120", "20140924193040.6*****-300",
+            "20140924193040.******+000", "201409241930**.******+000",
+            "2014092419****.******-300"],
+    "DIs": ["00000183132542.2345**:000", "00000183132542.******:000",
+            "000001831325**.******:000", "00000183******.******:000",
+            "**************.******:000"],
+}
 DIGIT_TOKS = ["N0", "N1", "N5", "N127", "N128", "N255", "N32767", "N32768",
               "N65535", "N2147483647", "N2147483648", "N4294967295",
               "N9223372036854775807", "N9223372036854775808",
@@ -56,8 +70,11 @@ class CharMap:
         h = rng.choice(HEX_LETTERS)
         self.ot = rng.choice(OTHERS)
         self.m = {"a": a, "A": a.upper(), "b": b, "B": b.upper(),
-                  "h": h, "H": h.upper(), "ot": self.ot, "DT": DT_TEXT}
+                  "h": h, "H": h.upper(), "ot": self.ot}
+        for k in sorted(DT_POOLS):
+            self.m[k] = rng.choice(DT_POOLS[k])
         self.m.update(PUNCT)
+        self._tok = _tokenizer(tuple(self.m[k] for k in sorted(DT_POOLS)))
         self.rng = rng
         self.mixed = mixed_case      # parser input: words in random case
         self.rev = {v: k for k, v in self.m.items() if len(v) == 1}
@@ -94,11 +111,6 @@ class CharMap:
             out.append(t)
         return "".join(out)
 
-    _tok = re.compile(
-        r"(?P<DT>%s)|(?P<ex>e\+20)|(?P<ex2>e-07)|(?P<T>true)|(?P<F>false)|"
-        r"(?P<INF>inf)|(?P<NAN>nan)|(?P<num>[0-9]+)|(?P<c>.)"
-        % re.escape(DT_TEXT), re.I | re.S)
-
     def project(self, text):
         """concrete text -> list of symbols (unknown -> 'UNCLASSIFIED:..')."""
         out = []
@@ -120,6 +132,22 @@ class CharMap:
             else:
                 out.append(k)
         return out
+
+
+_TOKENIZERS = {}
+
+
+def _tokenizer(dts):
+    """tokeniser of project(): only the datetime texts chosen for this vector
+    are datetime lexemes (any other datetime is unclassified characters)"""
+    if dts not in _TOKENIZERS:
+        _TOKENIZERS[dts] = re.compile(
+            "".join("(?P<%s>%s)|" % (k, re.escape(t))
+                    for k, t in zip(sorted(DT_POOLS), dts)) +
+            r"(?P<ex>e\+20)|(?P<ex2>e-07)|(?P<T>true)|(?P<F>false)|"
+            r"(?P<INF>inf)|(?P<NAN>nan)|(?P<num>[0-9]+)|(?P<c>.)",
+            re.I | re.S)
+    return _TOKENIZERS[dts]
 
 
 # ----------------------------------------------------------------------------
@@ -555,6 +583,8 @@ def probe_variant():
             "C", {"k": 1}, host="h").to_wbem_uri("historical") == "//h/C.k=1"
         flags["C07_HOSTLIT"] = "F" in CIMClassName(
             "C", host="[FE80::1]", namespace="n").to_wbem_uri("canonical")
+    flags["C07_HOSTNOHYPHEN"] = parses("//g-k.m/n:C.k=1") is None and \
+        parses("//g.m/n:C.k=1") is not None
     flags["C07_NEEDSDOT"] = parses("C.k=1e+20") is None and \
         parses("C.k=1e-07") is None
     flags["C07_EXPMINUS"] = parses("C.k=1.5e+20") is None and \
@@ -563,6 +593,12 @@ def probe_variant():
     r = parses('C.k="%sx"' % DT_TEXT)
     flags["C07_DTPREFIX"] = r is not None and \
         isinstance(r.keybindings["k"], CIMDateTime)
+    r1 = parses('C.k="%s"' % DT_TEXT)
+    r2 = [parses('C.k="%s"' % t) for t in DT_POOLS["DTs"] + DT_POOLS["DIs"]]
+    flags["C07_DTFULLONLY"] = r1 is not None and \
+        isinstance(r1.keybindings["k"], CIMDateTime) and \
+        all(r is not None and isinstance(r.keybindings["k"], str)
+            for r in r2)
     # results shared between calls (a cache): identity of two results
     r1, r2 = parses('C.k="/:D.x=77001"'), parses('C.k="/:D.x=77001"')
     flags["C07_CACHEALL"] = r1 is not None and r1 is r2
